@@ -805,20 +805,23 @@ MBOX_FROM_LINE = "From " + _n("B") + " desk since 2024"
 MBOX_AFTER_LINE = _n("B") + " after"
 
 
-def _from_line(full: dict) -> bytes:
+def _from_line(full: dict, envelope: str = "address") -> bytes:
     utc = _date_truth(full["date"][0], full["date"][1]).astimezone(_dt.timezone.utc)
     stamp = "%s %s %2d %02d:%02d:%02d %04d" % (_DOW[utc.weekday()], _MON[utc.month - 1], utc.day, utc.hour, utc.minute, utc.second, utc.year)
-    return ("From %s %s" % (full["from"][1], stamp)).encode("ascii")
+    sender = {"address": full["from"][1], "daemon": "MAILER-DAEMON", "dash": "-"}[envelope]
+    return ("From %s %s" % (sender, stamp)).encode("ascii")
 
 
 def _mbox_specs(specs: list, opts: dict) -> list:
     """The specs as mbox() writes them: file-wide line end, optional extra body lines in message 0."""
     for k in opts:
-        if k not in ("separator", "from_line_in_body"):
+        if k not in ("separator", "from_line_in_body", "envelope", "envelope_first"):
             raise ValueError("mbox opts: unknown key %r" % (k,))
     sep = opts.get("separator", "standard")
     if sep not in ("standard", "no-blank-line", "crlf"):
         _nie("mbox separator %r" % (sep,))
+    if opts.get("envelope", "address") not in ("address", "daemon", "dash"):
+        _nie("mbox envelope %r" % (opts.get("envelope"),))
     flb = opts.get("from_line_in_body")
     if flb not in (None, "escaped", "unescaped"):
         _nie("mbox from_line_in_body %r" % (flb,))
@@ -860,7 +863,8 @@ def mbox(specs: list, opts: dict | None = None) -> bytes:
         data = eml(s)
         if escape:
             data = data.replace(b"\nFrom ", b"\n>From ")
-        out.append(_from_line(full) + nl)
+        # envelope sender of the From_ line: the message's address, or the forms a bounce ("MAILER-DAEMON") and Thunderbird ("-") write
+        out.append(_from_line(full, opts.get("envelope", "address") if len(out) else opts.get("envelope_first", opts.get("envelope", "address"))) + nl)
         out.append(data)
         if not data.endswith(nl):
             out.append(nl)
@@ -955,6 +959,7 @@ def _domains() -> list:
             [None, "sender@verif.example"],
             [N() + ", " + N(), "sender@verif.example"],
             [N() + " Jörg Müller", "sender@verif.example"],
+            [N() + ", Jörg", "sender@verif.example"],
             [N() + ' "' + N() + '" ' + N() + "\\x", "sender@verif.example"],
             ["Dr. " + N(), "first.last+tag@mail.verif.example"],
         ]),
@@ -964,6 +969,7 @@ def _domains() -> list:
             [[N() + " " + N(), a(1)], [N(), a(2)], [None, a(3)]],
             [[N() + ", " + N(), a(1)], [N() + " " + N(), a(2)]],
             [[N() + " Åsa Øst", a(1)], [N() + " " + N(), a(2)]],
+            [[N() + ", Åsa", a(1)], [N() + " " + N(), a(2)]],
             [],
             [[N() + " " + N(), a(i)] for i in range(1, 9)],
         ]),
